@@ -1322,3 +1322,11 @@ VP("C20-R2C-mut-virtual-not-annotated", "C20", "flag-based partition: virtual fi
    "        properties[key] = arg_annotation\n        if persistent:", "        if persistent:\n            properties[key] = arg_annotation\n        if persistent:")
 VP("C20-R2C-mut-methods-as-attrs", "C20", "flag-based partition: instance methods fall through to the attribute tables", "C20-R2C", STUBS,
    "            methods[key] = field\n            continue", "            methods[key] = field")
+
+# ------------------------------------------------------------------------------------------ defects repaired in session 3
+V("C15-D16-reintroduced", "C15", "D16 re-introduced: DictProxy entry paths from the field's schema path only", DICT,
+  """        owner_path = getattr(self.cfg, "_ref_path", None)
+        if isinstance(owner_path, str) and owner_path:
+            return "%s.%s[%s]" % (owner_path, self.dict_field._key, key)
+        return "%s[%s]" % (self.dict_field._ref_path, key)""",
+  """        return "%s[%s]" % (self.dict_field._ref_path, key)""", expect_rule="path.proxy-uses-owner-path")
